@@ -12,7 +12,7 @@ from __future__ import annotations
 
 import itertools
 
-from .. import e1, impl
+from .. import envs, e1, impl
 from ..chartgen import mk
 
 ID = "C11"
@@ -72,6 +72,7 @@ sys.exit(0 if ok else 1)
 
 
 def setup():
+    envs.enable(64)  # E1-M: every 64th case again under every environment of mc/envs.py
     global probe
     impl.load()
     probe = e1.compile_probe(PROBE_SRC)
